@@ -46,7 +46,7 @@ PROBE_FLOORS = {"negative_cash": 200, "floor_positive_cash_negative_net_rate": 5
                 "env_level_interest_checked": 300, "rate_book_zero_before_first_rate_event": 100,
                 "timezone_aware_mixed_offsets": 2000, "accrual_clock_started_by_rebalance": 200,
                 "rate_event_replayed_at_reset": 50, "rate_book_checked_at_execution": 2000,
-                "futures_price_moved_between_accruals": 500}
+                "futures_price_moved_between_accruals": 500, "negative_rate_quoted_with_a_spread": 40}
 getcontext().prec = 50
 
 
@@ -88,11 +88,27 @@ def generate_epi(rng, i):
             if k != first and rng.random() < 0.6:
                 r = rng.choice([0.0, 0.02, 0.1, -0.02])
             env["events"].append({"t": g, "type": "rate", "r": r, "id": 5000 + k})
+    if rng.random() < 0.3:
+        # quotes and the reference rate are handed over as a table of mid prices (Transmitter.add_prices) with a
+        # spread: a negative rate is then quoted "crossed" (bid above ask) around the same mid
+        sp = rng.choice([0.0, 0.002, 0.01])
+        for es in env["events"]:
+            if es["type"] == "nbbo" and es["bid"] == es["bid"]:
+                mid = (es["bid"] + es["ask"]) / 2
+                es["bid"], es["ask"] = mid, mid         # (re-derived below from the mid and the table's spread)
+        gen_epi.route_quotes_via_add_prices(rng, env, sp)
     script = gen_epi.full_episode_script(rng, env)
     for op in script:
         if op["op"] == "step" and rng.random() < 0.3:
             op["action"] = [rng.choice([0.0, 1.5, 2.0])] + [0.0] * (len(op["action"]) - 1)     # idle or borrowed cash
     return {"kind": "epi", "envs": [env], "clock0": "1999-01-01T00:00:00", "script": script, "prng": rng.randrange(2 ** 31)}
+
+
+def rate_quote(e):
+    """(bid, ask, mid) of a reference-rate event as it reaches the exchange."""
+    if e.get("via_prices"):
+        return (e["bid"], e["ask"], (e["bid"] + e["ask"]) / 2)
+    return (e["r"], e["r"], (e["r"] + e["r"]) / 2)
 
 
 def execute_epi(scenario):
@@ -109,13 +125,13 @@ def execute_epi(scenario):
             break
         rb = ep["reset"]["books"]["__rate__"]
         had_rate = any(t <= ep["reset"]["now"] for t in rate_events)
-        rate_of0 = {e["id"]: e["r"] for e in env_spec["events"] if e["type"] == "rate"}
+        rate_of0 = {e["id"]: rate_quote(e) for e in env_spec["events"] if e["type"] == "rate"}
         replayed = [rate_of0[r["id"]] for r in sim.sink.records if r.get("env") == 0 and r["kind"] == "cb" and r.get("obs") == "state"
                     and ep["reset"]["seq"] < r["seq"] < ep["reset"]["end_seq"] and r.get("id") in rate_of0]
         if replayed:
             probe("rate_event_replayed_at_reset")
-            if rb[0] != replayed[-1]:
-                violate("rate_book", "after reset the reference rate on the exchange is {} but the last rate event replayed says {}".format(rb[0], replayed[-1]), kind="reset")
+            if (rb[0], rb[1]) != replayed[-1][:2]:
+                violate("rate_book", "after reset the reference rate on the exchange is {} but the last rate event replayed says {}".format(rb, replayed[-1][:2]), kind="reset")
         if not had_rate:
             probe("rate_book_zero_before_first_rate_event")
             if rb[0] != 0.0 or rb[1] != 0.0:
@@ -123,8 +139,8 @@ def execute_epi(scenario):
         prev = None
         rates_seen = []
         # the reference rate on the exchange is the last rate event delivered so far in this episode (0 before any)
-        rate_of = {e["id"]: e["r"] for e in env_spec["events"] if e["type"] == "rate"}
-        expected_rate = 0.0
+        rate_of = {e["id"]: rate_quote(e) for e in env_spec["events"] if e["type"] == "rate"}
+        expected_rate = (0.0, 0.0, 0.0)
         for r in sim.sink.records:
             if r.get("env") != 0 or not (ep["reset"]["seq"] < r["seq"]):
                 continue
@@ -133,18 +149,20 @@ def execute_epi(scenario):
             if r["kind"] == "cb" and r.get("obs") == "state" and r.get("id") in rate_of:
                 expected_rate = rate_of[r["id"]]
             if r["kind"] == "EXEC":
-                got_rate = r["books"]["__rate__"][0]
-                if got_rate != expected_rate:
+                got_rate = tuple(r["books"]["__rate__"][:2])
+                if got_rate != expected_rate[:2]:
                     violate("rate_book", "at the execution of {} the reference rate on the exchange is {} but the last rate event delivered says {}".format(
-                        r["time"], got_rate, expected_rate), kind="exec")
+                        r["time"], got_rate, expected_rate[:2]), kind="exec")
                     break
+                if expected_rate[0] > expected_rate[1]:
+                    probe("negative_rate_quoted_with_a_spread")
                 probe("rate_book_checked_at_execution")
             if r["kind"] == "step" and "books" in r:
-                rates_seen.append(r["books"]["__rate__"][0])
+                rates_seen.append((r["books"]["__rate__"][0] + r["books"]["__rate__"][1]) / 2)
             if r["kind"] != "EXEC" or r.get("rebalancing", {}).get("post") is None:
                 continue
             reb = r["rebalancing"]
-            rate_now = r["books"]["__rate__"][0]
+            rate_now = expected_rate[2]         # the mid of the last rate quote delivered (what the broker's formula reads)
             if prev is not None:
                 cash = prev["post"]["nr"].get("USD", 0.0)
                 secs = (reb["time"] - prev["time"]).total_seconds()
